@@ -198,7 +198,7 @@ func (p *provider) ruleSetsUpdated(ruleSets []*rule_config.RuleSet, state Bucket
 	for _, ID := range removedIDs {
 		conf := &rule_config.RuleSet{
 			MetaData: rule_config.MetaData{
-				Source:  "blob:" + ID,
+				Source:  ID,
 				ModTime: time.Now(),
 			},
 		}
